@@ -19,7 +19,11 @@ EXTENDS LockDiscipline
 \* critical sections (scenarios "alone" only, so that each is listed once or
 \* twice) and the runner lets exactly those calls meet each other in directed
 \* concurrent histories judged by Trace_Linearize.
-ReportSplit == (Len(scen.ms) = 1 /\ Split(1)) => PrintT(<<"PRED", "SPLIT", scen.ty, scen.ms[1], Top(1).m>>)
+\* ... and the public methods (of any kind) that run caller code between two critical sections (OpenCallback): the
+\* gated histories of that type get more cases.
+ReportSplit == /\ (Len(scen.ms) = 1 /\ Split(1)) => PrintT(<<"PRED", "SPLIT", scen.ty, scen.ms[1], Top(1).m>>)
+               /\ (Len(scen.ms) = 1 /\ scen.kind = "alone" /\ OpenCallback(1)) =>
+                      PrintT(<<"PRED", "OPENCB", scen.ty, scen.ms[1], Cur(1).b>>)
 
 Report ==
   /\ \A t \in Threads : SelfDeadlock(t) =>
